@@ -1193,9 +1193,20 @@ func c16Explore(r *mc.R, u *c16Universe, cfg c16Cfg, depth int) {
 	r.OutcomeN(cfg.Name+"/non-live-root checks", int64(sh.st.deadRoots))
 	r.OutcomeN(cfg.Name+"/held readers of live roots checked", int64(sh.st.heldLive))
 	if len(sh.known) > 0 {
+		caps := func(a []string) (n int) { // prefer traces that use the public API only
+			for _, o := range a {
+				if strings.HasPrefix(o, "cap(") {
+					n++
+				}
+			}
+			return n
+		}
 		less := func(a, b []string) bool {
 			if len(a) != len(b) {
 				return len(a) < len(b)
+			}
+			if ca, cb := caps(a), caps(b); ca != cb {
+				return ca < cb
 			}
 			return strings.Join(a, ";") < strings.Join(b, ";")
 		}
